@@ -196,10 +196,30 @@ def gen_json_text_strings(rng, tier):
                 yield {"style": style, "match": m, "rels": rels, "doc": doc, "seed": 19}
 
 
+def gen_negative_indices(rng, tier):
+    """one element reached through a negative and through a non-negative index (also exactly -len): one position"""
+    def q(*segs):
+        return {"first": {"fake": False, "segs": list(segs)}, "rest": []}
+
+    def ix(i):
+        return ["list", ["idx", i]]
+
+    def nm(n):
+        return ["list", ["name", n]]
+    doc = {"rows": [{"a": 1, "b": 2, "c": 3}, {"a": 4, "b": 5, "c": 6}], "one": [{"a": 7, "b": 8}]}
+    for style in STYLES:
+        for m, rels in ((q(nm("rows")), [q(ix(-2), nm("a")), q(ix(0), nm("b"))]), (q(nm("rows")), [q(ix(0), nm("a")), q(ix(-2), nm("c")), q(ix(-1), nm("a")), q(ix(1), nm("b"))]),
+                        (q(), [q(nm("rows"), ix(-2), nm("a")), q(nm("rows"), ix(0), nm("c"))]), (q(nm("rows")), [q(ix(-2)), q(ix(0))]),
+                        (q(nm("one")), [q(ix(-1), nm("a")), q(ix(0), nm("b"))]), (q(nm("rows")), [q(ix(-2), nm("a")), q(["list", ["slice", 0, 1, None]], nm("b"))]),
+                        (q(nm("rows")), [q(["sel", "wild"], nm("a")), q(ix(-2), nm("b"))])):
+            yield {"style": style, "match": m, "rels": rels, "doc": doc, "seed": 23}
+
+
 _gen_main = gen
 
 
 def gen(rng, tier):      # noqa: F811
+    yield from gen_negative_indices(rng, tier)
     yield from gen_json_text_strings(rng, tier)
     yield from gen_long_arrays(rng, tier)
     yield from _gen_main(rng, tier)
